@@ -219,7 +219,8 @@ class Alphabet:
     """texts / cmd0 / containers available, as functions of the context."""
 
     def __init__(self, name, names, texts, containers, cmd0=True, comment=True, star=True, eof_comment=True,
-                 fixed0=False):
+                 fixed0=False, cr_comment=False):
+        self.cr_comment = cr_comment
         self.name, self.N = name, names
         self.texts, self.cont = texts, containers
         self.cmd0, self.comment, self.star, self.eof_comment, self.fixed0 = cmd0, comment, star, eof_comment, fixed0
@@ -237,6 +238,8 @@ class Alphabet:
         N = self.N
         if self.comment:
             out.append(('%c\n', (('CM', '%c'), ('T', '\n')), 'comment'))
+            if self.cr_comment:
+                out.append(('%c\r', (('CM', '%c'), ('T', '\r')), 'comment'))      # a comment ended by a bare CR
             if kind == 'top' and self.eof_comment:
                 out.append(('%c', (('CM', '%c'),), 'eofcomment'))          # R4: only at end of input
         if self.cmd0:
@@ -318,17 +321,21 @@ class Alphabet:
                            (lambda fs, mname=mname: ('\\begin{%s}%s\\end{%s}' % (mname, fs[0][0], mname),
                                                      (('E', mname, (), fs[0][1]),))), ('head', 0)))
         if 'defn' in want and not inmath and kind != 'item':
-            for definer, digit in (('newcommand', None), ('renewcommand', '2'), ('providecommand', None)):
-                def build(fs, definer=definer, digit=digit):
+            for definer, digit, default in (('newcommand', None, None), ('renewcommand', '2', None),
+                                            ('providecommand', None, None), ('newcommand', '2', N.a)):
+                def build(fs, definer=definer, digit=digit, default=default):
                     args = [('G{', (('C', N.x, (), ()),))]
                     txt = '\\%s{\\%s}' % (definer, N.x)
                     if digit:
                         args.append(('G[', (('T', digit),)))
                         txt += '[%s]' % digit
+                    if default:
+                        args.append(('G[', (('T', default),)))      # \newcommand{\x}[2][default]{body}
+                        txt += '[%s]' % default
                     args.append(('G{', fs[0][1]))
                     txt += '{%s}' % fs[0][0]
                     return txt, (('C', definer, tuple(args), ()),)
-                cs.append(('defn:' + definer, 'cmdargs', [sub(ctx, 'special')], build, None))
+                cs.append(('defn:' + definer + ('+default' if default else ''), 'cmdargs', [sub(ctx, 'special')], build, None))
         return cs
 
     def verbatims(self, ctx):
